@@ -3,8 +3,7 @@
    Spec/EnvSpec.v (RFC 9112 / RFC 3986 / RFC 3875 / PEP 3333, single left-to-right scans), proofs in
    Proof/EnvC15Proofs.v. *)
 From Coq Require Import List NArith ZArith Bool.
-From GV Require Import Base.Enc Base.Dec Gen.GenEnv Model.EnvStr Model.Environ Spec.EnvSpec
-                       Proof.EnvStrProofs Proof.EnvC08Proofs Proof.EnvC15Proofs.
+From GV Require Import Base.Enc Base.Dec Gen.GenEnv Model.EnvStr Model.Environ Spec.EnvSpec Proof.EnvStrProofs Proof.EnvC08Proofs Proof.EnvC15Proofs.
 Import ListNotations.
 Local Open Scope N_scope.
 
